@@ -53,6 +53,44 @@ pub fn name_pool_c03() -> Vec<(&'static str, Shape)> {
     ]
 }
 
+/// a second pool for C03: semver tracks on which the distinguishing version component crosses a
+/// digit boundary (9 → 10, 99 → 100) in patch, minor and major position, so that the order of
+/// the versions differs from the order of the names as strings (`0.2.9` < `0.2.10`,
+/// `1.9.0` < `1.10.0`), plus neighbouring tracks whose keys are prefixes of one another
+/// (`0.1` / `0.10`, `1` / `10`).  As in `name_pool_c03`, the versions on one track differ in what
+/// they offer.
+pub fn name_pool_c03_digits() -> Vec<(&'static str, Shape)> {
+    let a = || Shape::inst(&[("a", Shape::F0)]);
+    let ab = || Shape::inst(&[("a", Shape::F0), ("b", Shape::F0)]);
+    let ac = || Shape::inst(&[("a", Shape::F0), ("c", Shape::F1)]);
+    vec![
+        ("f", Shape::F0),
+        ("i", a()),
+        // patch position, track 0.2
+        ("test:d/w@0.2.9", a()),
+        ("test:d/w@0.2.10", ab()),
+        ("test:d/w@0.2.100", ac()),
+        // minor position, track 1
+        ("test:e/x@1.9.0", a()),
+        ("test:e/x@1.10.0", ab()),
+        ("test:e/x@1.99.5", ac()),
+        ("test:e/x@1.100.0", a()),
+        // patch position below a two-digit minor, track 1
+        ("test:g/y@1.10.9", ab()),
+        ("test:g/y@1.10.10", a()),
+        ("test:g/y@1.9.11", ac()),
+        // different tracks with prefix-related keys: never shared
+        ("test:h/z@0.1.10", a()),
+        ("test:h/z@0.10.1", ab()),
+        ("test:h/z@0.10.0", a()),
+        ("test:k/v@9.0.0", a()),
+        ("test:k/v@10.0.0", ab()),
+        // conflicting types on a digit-crossing track
+        ("test:s/m@1.9.0", a()),
+        ("test:s/m@1.10.0", Shape::inst(&[("a", Shape::F1)])),
+    ]
+}
+
 /// the pool of C01: the C03 pool plus nested instances of different widths under one name
 pub fn name_pool_c01() -> Vec<(&'static str, Shape)> {
     let a = || Shape::inst(&[("a", Shape::F0)]);
@@ -186,19 +224,33 @@ pub fn build_library(rng: &mut Rng, n_wat: usize, with_wit: bool) -> Vec<LibPkg>
 }
 
 pub fn build_library_from(rng: &mut Rng, n_wat: usize, with_wit: bool, imports: Vec<(&'static str, Shape)>) -> Vec<LibPkg> {
+<<<<<<< HEAD
     build_library_sel(rng, n_wat, LibSel { wit: with_wit, ..Default::default() }, imports)
 }
 
 pub fn build_library_sel(rng: &mut Rng, n_wat: usize, sel: LibSel, imports: Vec<(&'static str, Shape)>) -> Vec<LibPkg> {
+=======
+    build_library_focus(rng, n_wat, with_wit, imports, &[])
+}
+
+/// as `build_library_from`; three packages in four import one name of the `focus` family (the
+/// versions of one interface on one semver track), so that most plans leave several versions of
+/// that track unsatisfied
+pub fn build_library_focus(rng: &mut Rng, n_wat: usize, with_wit: bool, imports: Vec<(&'static str, Shape)>, focus: &[(&'static str, Shape)]) -> Vec<LibPkg> {
+>>>>>>> agent-gen4
     let mut lib = Vec::new();
     let exports = export_pool();
     for i in 0..n_wat {
         let mut imps: Vec<(String, Shape)> = Vec::new();
         let ni = pick_weighted(rng, &[2, 3, 4, 3, 2]);
+        if !focus.is_empty() && rng.chance(3, 4) {
+            let (n, s) = rng.pick(focus);
+            imps.push((n.to_string(), s.clone()));
+        }
         let mut idx: Vec<usize> = (0..imports.len()).collect();
         rng.shuffle(&mut idx);
         for k in idx.into_iter() {
-            if imps.len() >= ni {
+            if imps.len() >= ni.max(if focus.is_empty() { 0 } else { 1 }) {
                 break;
             }
             if imps.iter().any(|(n, _)| n == imports[k].0) {
